@@ -16,9 +16,9 @@ git apply --check -R patch.diff 2>/dev/null || git apply patch.diff
 mv $DEMO $WT/../seeded_demo_$ID.rs
 SUITE=$(cargo test --workspace --offline --lib --bins --tests 2>&1 | grep -E "^test result" | awk '{p+=$4; f+=$6} END {print p" passed "f" failed"}')
 mv $WT/../seeded_demo_$ID.rs $DEMO
-WITH=$(cargo test -p $CRATE --offline --test seeded_demo 2>&1 | grep -E "^test result" | tail -1)
+WITH=$(cargo test -p $CRATE --offline ${SEED_FEATURES:-} --test seeded_demo 2>&1 | grep -E "^test result" | tail -1)
 git apply -R patch.diff
-WITHOUT=$(cargo test -p $CRATE --offline --test seeded_demo 2>&1 | grep -E "^test result" | tail -1)
+WITHOUT=$(cargo test -p $CRATE --offline ${SEED_FEATURES:-} --test seeded_demo 2>&1 | grep -E "^test result" | tail -1)
 git apply patch.diff
 echo "[$ID] suite with change: $SUITE"; echo "[$ID] demo with change: $WITH"; echo "[$ID] demo without: $WITHOUT"
 cd $REPO
